@@ -18,7 +18,12 @@ source for the truncated-Poisson weights: entries of the uniform vector `rng.ran
 Sessions (`mode = session`): ONE sampler object, 2-5 `sample(...)` calls of all conditioning kinds in every order, their
 generators consumed one after the other or interleaved; the recording is routed to one Trace per call (`Router`), every
 call is judged with the conditioning of THAT call and replayed on the model, and the whole session is replayed on the
-model's sampler-state record (`new`, `callhyg` / `callseqs` / `callmodel`: `C16.callStep`)."""
+model's sampler-state record (`new`, `callhyg` / `callseqs` / `callmodel` / `calldeg` / `calldim`: `C16.callStepX`).
+
+Extension round: all four flag pairs of `_match_sequences` and its error path are in the model (`C16.matchFull`, driver command
+`matchr`): every recorded run of `_match_sequences` - inside sampler cases, inside sessions, and called directly (`direct_match`) - is
+compared with it, a raising run by the value it leaves in `matching_sequences`; `sample(deg_seq=...)` / `sample(dim_seq=...)` are case
+modes `degonly` / `dimonly` (single calls and calls of sessions)."""
 import contextlib
 import math
 import signal
@@ -55,7 +60,11 @@ RULE = ("three conditioning modes of HyMMSBMSampler.sample: (A) initial hypergra
         "uniforms) on an uninstrumented one; every call is judged against the conditioning of that call, its report "
         "matching_sequences is read right after its first sample. A case is distinct by its "
         "canonical input (mode, parameters, sequences / hyperedges, steps, seed); non-trivial when at least one accepted "
-        "proposal changed the configuration (direct calls: when the call returned)")
+        "proposal changed the configuration (direct calls: when the call returned); extension round (own PRNG, the older streams are unchanged per seed): "
+        "(D) sample(deg_seq=d) - d sparse / all positive / random, the size sequence drawn by the inner model - and sample(dim_seq=m), single calls and "
+        "inside sessions; sessions with 1-3 further calls put in at random positions: the two new kinds and sequence calls that raise inside _match_sequences "
+        "(a size < 1 before / after an extraction ran out of nodes); direct _match_sequences calls with all four flag pairs, 1-3 calls on ONE sampler, sequences "
+        "from a hypergraph or random, sizes 0..N+2, no node of degree 0 - returning and raising ones in any order")
 ASSUMPTIONS = [
     "initial hypergraphs have hyperedges of size >= 2 and size sequences have keys >= 2 (a size-1 entry is extracted and dropped by the sampler; the property speaks of sizes >= 2)",
     "matching_sequences is the report of the most recently STARTED sequence-conditioned call (an attribute of the sampler object): it is read right after the first sample of a call; sample(initial_hyg=...) makes no report",
@@ -66,7 +75,13 @@ ASSUMPTIONS = [
     "output labels are compared by equality (numpy scalars / 1.0 for 1 are the same node, as for the container itself)",
     "labels of one hypergraph are mutually comparable scalars (tuple labels make Hypergraph.get_mapping raise inside sklearn: no output, outside)",
     "an exception of the sampler is 'no output' (the model must answer none on the same draws); it is reported as a broken correspondence when the model returns",
-    "the branch force_deg_seq and not force_dim_seq of _match_sequences (only one sequence given) is outside the property's quantifier; it references self.model (AttributeError) - noted, not claimed",
+    "sample(deg_seq=d) / sample(dim_seq=m) (one sequence given, the other drawn by the inner model) are outside the property's quantifier but inside the model since the "
+    "extension round: their guarantees are the docstring's (force_dim_seq: the size sequence is kept exactly; force_deg_seq: no node above its degree, whatever the report) "
+    "and are judged on the outputs; the second phase of force_deg_seq alone evaluates self.model (AttributeError) as soon as two nodes keep residual degree - modelled as the "
+    "code stands (C16.phase2), an accepted exception exactly then",
+    "matching_sequences after a call that RAISED inside _match_sequences is compared with the model's sampler state (None, or False when an extraction had run out of "
+    "nodes before the exception); size-sequence keys of sample(...) calls are <= N (a larger key fails the caller's assertion before _match_sequences is entered and before "
+    "the attribute is touched - outside the model); direct _match_sequences calls go beyond N",
 ]
 TRUSTED = [
     "numpy Generator.choice(pop, size=k, replace=False) returns k distinct members of pop (checked on every recorded draw), Generator determinism under a seed",
@@ -391,6 +406,19 @@ def deg_array(case):
     return np.array([int(x) for x in case["deg_seq"]], dtype=case.get("ddtype", "int64"))
 
 
+def seq_kwargs(case):
+    """keyword arguments of a sample(...) call that goes through _sampling_from_sequences: both sequences, only the degree
+    sequence (`degonly`: force_deg_seq alone), only the size sequence (`dimonly`: force_dim_seq alone), none (`model`)"""
+    k = {}
+    if case["mode"] in ("seqs", "degonly"):
+        k["deg_seq"] = deg_array(case)
+    if case["mode"] in ("seqs", "dimonly"):
+        k["dim_seq"] = {int(a): int(b) for a, b in case["dim_seq"]}
+    if case["mode"] == "seqs":
+        k["allow_rescaling"] = case.get("rescale", False)
+    return k
+
+
 def make_h0(case):
     """the initial hypergraph of a case, reached through its history: temporary hyperedges / nodes first (removed again
     below), isolated nodes, then the hyperedges in the order and with the node order of the case; every label occurrence
@@ -438,11 +466,8 @@ def run_naked(case):
             if case["mode"] == "hyg":
                 res["h0"] = make_h0(case)
                 g = s.sample(initial_hyg=res["h0"])
-            elif case["mode"] == "seqs":
-                g = s.sample(deg_seq=deg_array(case), dim_seq={int(k): int(v) for k, v in case["dim_seq"]},
-                             allow_rescaling=case.get("rescale", False))
             else:
-                g = s.sample()
+                g = s.sample(**seq_kwargs(case))
             for _ in range(case.get("nsamples", NSAMPLES)):
                 h = next(g)
                 res["hs"].append(h)
@@ -471,11 +496,8 @@ def run_sampler(case, trace):
                     h0 = make_h0(case)
                     res["h0"] = h0
                     g = s.sample(initial_hyg=h0)
-                elif case["mode"] == "seqs":
-                    g = s.sample(deg_seq=deg_array(case), dim_seq={int(k): int(v) for k, v in case["dim_seq"]},
-                                 allow_rescaling=case.get("rescale", False))
                 else:
-                    g = s.sample()
+                    g = s.sample(**seq_kwargs(case))
                 for _ in range(case.get("nsamples", NSAMPLES)):
                     h = next(g)
                     res["hs"].append(h)
@@ -680,6 +702,12 @@ def oracle_outputs(ctx, case, res, trace, code_of, tag=""):
             cond_size = {int(k): int(v) for k, v in case["dim_seq"] if int(v) > 0}
             if res["flag"] is True:
                 cond_deg = {i: int(d) for i, d in enumerate(case["deg_seq"])}
+        elif mode == "dimonly":
+            # force_dim_seq alone: the size sequence is kept whatever degree sequence the inner model draws
+            cond_size = {int(k): int(v) for k, v in case["dim_seq"] if int(v) > 0}
+    # force_deg_seq alone: the construction never adds a node beyond its degree (it shrinks hyperedges instead) - no node
+    # exceeds its conditioned degree, whatever the report says
+    cap_deg = {i: int(d) for i, d in enumerate(case["deg_seq"])} if mode == "degonly" else None
     for k, h in enumerate(res["hs"]):
         where = {**case, "sample_no": k}
         if tag:
@@ -702,6 +730,10 @@ def oracle_outputs(ctx, case, res, trace, code_of, tag=""):
                 ctx.violation(where, f"sample {k} has the hyperedge {e} larger than max_hye_size={case['D'] or N}")
             if not set(e) <= allowed:
                 ctx.violation(where, f"sample {k}: hyperedge {e} has a node outside the {'initial hypergraph' if mode == 'hyg' else 'model'}")
+        if cap_deg is not None:
+            for x, d in count_deg(edges).items():
+                if d > cap_deg.get(x, 0):
+                    ctx.violation(where, f"sample {k} of sample(deg_seq=...): node {x!r} has degree {d}, conditioned degree {cap_deg.get(x, 0)}")
         if cond_size is not None and case.get("equal_totals", True):
             total = sum(cond_size.values())
             # no two sampled hyperedges coincided: seen on the recorded chain state; a run without recording (or whose
@@ -780,7 +812,15 @@ def oracle_matching(ctx, case, trace):
     dim = {int(k): int(v) for k, v in m["dim_seq"] if int(v) > 0}
     if any(k < 2 for k in dim):
         return
-    if m["fd"] == m["fm"]:
+    if m["fd"] and not m["fm"]:
+        want = {i: int(d) for i, d in enumerate(m["deg_seq"])}
+        over = {x: d for x, d in count_deg(cfg).items() if d > want.get(x, 0)}
+        if over:
+            ctx.violation(case, f"_match_sequences(force_deg_seq alone): nodes used more often than their degree: {over} (degree sequence {m['deg_seq']})")
+        left = [x for x, d in enumerate(dict_state(m["dict"], len(want))[1]) if d is not None and d > 0]
+        if len(left) > 1:
+            ctx.violation(case, f"_match_sequences(force_deg_seq alone) returned although the nodes {left} still have residual degree")
+    if m["fm"] or not m["fd"]:
         if count_sizes(cfg) != dim:
             ctx.violation(case, f"_match_sequences: size counts {count_sizes(cfg)} != requested {dim} (flag {m['flag']})")
     if m["flag"] is True and case["mode"] == "seqs" and case.get("equal_totals", True) and m["fd"] and m["fm"]:
@@ -813,7 +853,9 @@ def legit_exception(case, t):
             return pos < rec["size"] and zeros < rec["size"] - pos
         return not any(k > 0 for k in rec["dict"])      # shrink branch: set.union() of nothing
     if t.match is not None and "result" not in t.match:
-        return t.match["fd"] and not t.match["fm"]       # the unmodelled branch (self.model)
+        # second phase of force_deg_seq alone: `self.model` (AttributeError) as soon as two nodes keep residual degree
+        d = getattr(t, "last_dict", None) or {}
+        return bool(t.match["fd"] and not t.match["fm"] and sum(len(v) for k, v in d.items() if k > 0) > 1)
     if t.routine is not None and len(t.routine["init"]) < 2 and (case["burn"] > 0 or case["thin"] > 0):
         return True
     if t.routine is not None and len(t.routine["init"]) + len(t.routine["fixed"]) < 2:
@@ -864,7 +906,22 @@ def check_case(ctx, drv, case):
         ctx.violation({**case, "run": "uninstrumented"},
                       "a sampler without any instrumentation and the recorded sampler, built with the same parameters and seed, "
                       f"produced different sequences of samples: {str(r3['out'])[:300]} ({r3['exc']}) vs {str(r1['out'])[:300]} ({r1['exc']})")
-    judge(ctx, drv, case, r1, t1, r3)
+    call = judge(ctx, drv, case, r1, t1, r3)
+    if drv is not None and call is not None and call["sets_flag"]:
+        # the call on the model's sampler-state record (C16.callStepX), started in a state with a stale report: report,
+        # samples and the attribute afterwards - also when the call raised inside _match_sequences
+        prev = "callseqs 2,0,0 2,1;3,1 0;1;_;0;1,2 - - -"         # leaves matching_sequences = False
+        a = drv.batch(["new", prev, call["line"]])[2]
+        parts = a.split(" ")
+        if len(parts) < 2 or a == "bad-op":
+            ctx.disagree({**case, "line": call["line"]}, f"model answers {a!r}")
+        elif parts[1] != STATE_TOK.get(r1["flag"], "?"):
+            ctx.disagree({**case, "line": call["line"]}, f"matching_sequences after the call ({'it raised ' + r1['exc'] if r1['exc'] else 'returned'}) "
+                         f"is {r1['flag']!r}, the model's sampler state has {parts[1]!r}")
+        elif call.get("raised_in_match") and parts[0] != "none":
+            ctx.disagree({**case, "line": call["line"]}, f"the call raised inside _match_sequences ({r1['exc']}), the model delivers {a[:200]!r}")
+        elif call["complete"] and (parts[0] != call["report"] or len(parts) != 3 or dec_outs(parts[2]) != call["outs"]):
+            ctx.disagree({**case, "line": call["line"]}, f"model run of the call differs: {a[:300]!r}, implementation report={call['report']} {call['outs']}")
 
 
 def judge(ctx, drv, case, r1, t1, r3=None):
@@ -935,7 +992,7 @@ def judge(ctx, drv, case, r1, t1, r3=None):
                 ctx.count("generic_model_" + cmd)
         elif t1.match is not None:
             m = t1.match
-            if mode == "model" and any(float(x) < 0 for x in m["deg_seq"]):
+            if mode in ("model", "dimonly") and any(float(x) < 0 for x in m["deg_seq"]):
                 # the inner model drew a negative degree (its Gaussian approximation takes the square root of an expected
                 # degree that is a rounding-negative zero: nan -> INT_MIN): such a node is in no bucket the construction
                 # looks at - no clause of the property is concerned, and the model's degrees are naturals: no replay
@@ -952,29 +1009,44 @@ def judge(ctx, drv, case, r1, t1, r3=None):
             deg = ints_of(m["deg_seq"])
             dim = [[int(k), int(v)] for k, v in m["dim_seq"]]
             picks = enc_picks(t1.extracts)
-            lines.append(f"match {hgxv.enc_list(deg)} {hgxv.enc_lists(dim)} {int(m['fd'])} {int(m['fm'])} {hgxv.enc_lists(picks)}")
+            old_pair = not (m["fd"] and not m["fm"])       # C16.matchSequences / sampleFromSeqs: three flag pairs
+            if old_pair:
+                lines.append(f"match {hgxv.enc_list(deg)} {hgxv.enc_lists(dim)} {int(m['fd'])} {int(m['fm'])} {hgxv.enc_lists(picks)}")
+                if "result" in m:
+                    keys, resid = dict_state(m["dict"], len(deg))
+                    expect.append(("match", m["result"], bool(m["flag"]), resid, keys))
+                else:
+                    expect.append(("none",))
+            # C16.matchFull: all four flag pairs, and what a raising run leaves in matching_sequences
+            lines.append(f"matchr {hgxv.enc_list(deg)} {hgxv.enc_lists(dim)} {int(m['fd'])} {int(m['fm'])} {hgxv.enc_lists(picks)}")
             if "result" in m:
                 keys, resid = dict_state(m["dict"], len(deg))
-                expect.append(("match", m["result"], bool(m["flag"]), resid, keys))
+                expect.append(("matchr", m["result"], bool(m["flag"]), resid, keys))
             else:
-                expect.append(("none",))
+                expect.append(("matchr_raised", r1["flag"]))
+            ctx.count(f"match_flags_{int(m['fd'])}{int(m['fm'])}_{'returned' if 'result' in m else 'raised'}")
             fixed = t1.routine["fixed"] if t1.routine else []
-            lines.append(f"fromseqs {hgxv.enc_list(deg)} {hgxv.enc_lists(dim)} {int(m['fd'])} {int(m['fm'])} {hgxv.enc_lists(fixed)} "
+            if old_pair:
+              lines.append(f"fromseqs {hgxv.enc_list(deg)} {hgxv.enc_lists(dim)} {int(m['fd'])} {int(m['fm'])} {hgxv.enc_lists(fixed)} "
                          f"{hgxv.enc_lists(picks)} {enc_steps(burn)} {enc_blocks(blocks[:n_out])} {hgxv.enc_lists(weights[:n_out])}")
-            if "result" in m:
+              if "result" in m:
                 expect.append(("flag_outs", bool(r1["flag"]), r1["out"], r1["exc"] if n_out < case.get("nsamples", NSAMPLES) else None))
-            else:
+              else:
                 expect.append(("none",))
             tail = f"{hgxv.enc_lists(picks)} {enc_steps(burn)} {enc_blocks(blocks[:n_out])} {hgxv.enc_lists(weights[:n_out])}"
             if mode == "seqs" and m["fd"] and m["fm"] and not fixed:
                 line = f"callseqs {hgxv.enc_list(deg)} {hgxv.enc_lists(dim)} {tail}"
             elif mode == "model" and not m["fd"] and not m["fm"]:
                 line = f"callmodel {hgxv.enc_list(deg)} {hgxv.enc_lists(dim)} {hgxv.enc_lists(fixed)} {tail}"
+            elif mode == "degonly" and m["fd"] and not m["fm"] and not fixed and deg == [int(x) for x in case["deg_seq"]]:
+                line = f"calldeg {hgxv.enc_list(deg)} {hgxv.enc_lists(dim)} {tail}"
+            elif mode == "dimonly" and not m["fd"] and m["fm"] and not fixed and dim == [[int(k), int(v)] for k, v in case["dim_seq"]]:
+                line = f"calldim {hgxv.enc_list(deg)} {hgxv.enc_lists(dim)} {tail}"
             else:
                 raise BadTrace(f"sample() in mode {mode} called _match_sequences with force_deg_seq={m['fd']}, force_dim_seq={m['fm']} "
                                f"and {len(fixed)} fixed hyperedges")
             call = {"line": line, "report": str(int(bool(r1["flag"]))), "outs": r1["out"],
-                    "complete": r1["exc"] is None and "result" in m, "sets_flag": True}
+                    "complete": r1["exc"] is None and "result" in m, "sets_flag": True, "raised_in_match": "result" not in m}
     except BadTrace as e:
         ctx.disagree(case, f"recorded run does not have the shape the model expects: {e}")
         return None
@@ -1011,6 +1083,16 @@ def judge(ctx, drv, case, r1, t1, r3=None):
             if (got != ex[1] or (flag_s == "1") != ex[2] or hgxv.dec_list(resid_s) != ex[3] or hgxv.dec_list(keys_s) != ex[4]
                     or unused != "0"):
                 what = f"_match_sequences differs: model {a!r} implementation cfg={ex[1]} flag={ex[2]} resid={ex[3]} keys={ex[4]}"
+        elif ex[0] == "matchr":
+            parts = a.split(" ")
+            got = [sorted(e) for e in hgxv.dec_lists(parts[1])] if len(parts) == 6 else None
+            if (len(parts) != 6 or parts[0] != "done" or got != ex[1] or (parts[2] == "1") != ex[2] or hgxv.dec_list(parts[4]) != ex[3]
+                    or hgxv.dec_list(parts[3]) != ex[4] or parts[5] != "0"):
+                what = f"_match_sequences differs: model {a!r} implementation cfg={ex[1]} flag={ex[2]} resid={ex[3]} keys={ex[4]}"
+        elif ex[0] == "matchr_raised":
+            if a != "raised " + STATE_TOK.get(ex[1], "?"):
+                what = (f"_match_sequences raised ({r1['exc']}) and left matching_sequences={ex[1]!r}; model answers {a!r} "
+                        "(`raised -` = None, `raised 0` = False)")
         elif ex[0] == "flag_outs":
             flag_s, outs_s = a.split(" ")
             if (flag_s == "1") != ex[1] or dec_outs(outs_s) != ex[2]:
@@ -1023,6 +1105,7 @@ def judge(ctx, drv, case, r1, t1, r3=None):
 # ------------------------------------------------------------------------------------------
 # sessions: several sample(...) calls on ONE sampler object
 
+STATE_TOK = {None: "-", True: "1", False: "0"}
 SHARED = ("u", "w", "udiv", "wdiv", "D", "exact", "burn", "thin", "seed", "ustream")
 
 
@@ -1065,10 +1148,7 @@ def make_args(call):
     import numpy as np
     if call["mode"] == "hyg":
         return {"initial_hyg": make_h0(call)}
-    if call["mode"] == "seqs":
-        return {"deg_seq": deg_array(call), "dim_seq": {int(k): int(v) for k, v in call["dim_seq"]},
-                "allow_rescaling": call.get("rescale", False)}
-    return {}
+    return seq_kwargs(call)
 
 
 def args_intact(call, args):
@@ -1080,10 +1160,12 @@ def args_intact(call, args):
         want = [frozenset(lab_edge(e, lk)) for e in call["edges"]]
         return (len(edges) == len(want) and set(edges) == set(want)
                 and set(h0.get_nodes()) == {lab(x, lk) for e in call["edges"] for x in e} | {lab(x, lk) for x in call.get("isolated", [])})
-    if call["mode"] == "seqs":
-        return ([int(x) for x in args["deg_seq"]] == [int(x) for x in call["deg_seq"]]
-                and list(args["dim_seq"].items()) == [(int(k), int(v)) for k, v in call["dim_seq"]])
-    return True
+    ok = True
+    if "deg_seq" in args:
+        ok = ok and [int(x) for x in args["deg_seq"]] == [int(x) for x in call["deg_seq"]]
+    if "dim_seq" in args:
+        ok = ok and list(args["dim_seq"].items()) == [(int(k), int(v)) for k, v in call["dim_seq"]]
+    return ok
 
 
 def run_session(sess, instrumented):
@@ -1236,7 +1318,18 @@ def check_session(ctx, drv, sess):
         parts = a.split(" ")
         if not c["complete"]:
             if c["sets_flag"]:
-                state_known = False               # raised inside _match_sequences: the attribute is not modelled there
+                # the call raised: _match_sequences was entered (else there is no call line), so the model's sampler state
+                # is the attribute the exception left behind - None or False when it came from inside _match_sequences
+                state_known = True
+                real_state = R1["res"][k]["state"][0]
+                where = {**sess, "call_no": k, "line": c["line"]}
+                if len(parts) < 2 or a == "bad-op":
+                    ctx.disagree(where, f"call {k} of the session: model answers {a[:200]!r}")
+                elif c.get("raised_in_match") and parts[0] != "none":
+                    ctx.disagree(where, f"call {k} of the session raised inside _match_sequences ({R1['res'][k]['exc']}), the model delivers {a[:200]!r}")
+                elif parts[1] != STATE_TOK.get(real_state, "?"):
+                    ctx.disagree(where, f"call {k} of the session raised ({R1['res'][k]['exc']}): matching_sequences afterwards is {real_state!r}, "
+                                 f"the model's sampler state has {parts[1]!r}")
             continue
         where = {**sess, "call_no": k, "line": c["line"]}
         if parts[0] == "none" or a == "bad-op" or len(parts) != 3:
@@ -1249,7 +1342,7 @@ def check_session(ctx, drv, sess):
         if rep != c["report"] or dec_outs(outs_s) != c["outs"]:
             ctx.disagree(where, f"call {k} of the session differs from the model run on the same draws: model report={rep} {dec_outs(outs_s)}, "
                          f"implementation report={c['report']} {c['outs']}")
-        elif state_known and state != {None: "-", True: "1", False: "0"}.get(real_state, "?"):
+        elif state_known and state != STATE_TOK.get(real_state, "?"):
             ctx.disagree(where, f"call {k} of the session: matching_sequences after the start of the call is {real_state!r}, the model's "
                          f"sampler state has {state!r}")
 
@@ -1954,6 +2047,187 @@ def gen_model(rng):
             **gen_magnitude(rng, large=False), **gen_streams(rng)}
 
 
+def gen_degonly(rng):
+    """sample(deg_seq=d): force_deg_seq alone, the size sequence is drawn by the inner model"""
+    N = rng.randint(4, 9)
+    u, w = gen_uw(rng, N)
+    r = rng.random()
+    if r < 0.4:
+        deg = [0] * N                                       # little degree to spend: the second phase finds <= 1 node left
+        for x in rng.sample(range(N), rng.randint(0, 3)):
+            deg[x] = rng.randint(1, 2)
+    elif r < 0.5:
+        deg = [rng.randint(1, 3) for _ in range(N)]         # no node of degree 0
+    else:
+        deg = [rng.choice([0, 0, 1, 1, 2, 3]) for _ in range(N)]
+    return {"mode": "degonly", "deg_seq": deg, "ddtype": rng.choice(DDTYPES), "u": u, "w": w, "D": rng.randint(3, min(5, N)),
+            "exact": rng.random() < 0.6, "burn": rng.choice(STEPS), "thin": rng.choice(STEPS), "seed": rng.randint(0, 10**6),
+            **gen_magnitude(rng, large=False), **gen_streams(rng)}
+
+
+def gen_dimonly(rng):
+    """sample(dim_seq=m): force_dim_seq alone, the degree sequence is drawn by the inner model"""
+    N = rng.randint(4, 9)
+    u, w = gen_uw(rng, N)
+    sizes = rng.sample(range(2, min(5, N) + 1), rng.randint(1, min(3, min(5, N) - 1)))
+    dim = [[k, rng.choice([0, 1, 1, 2, 3])] for k in sizes]
+    if all(v == 0 for _, v in dim):
+        dim[0][1] = 2
+    return {"mode": "dimonly", "dim_seq": dim, "equal_totals": True, "u": u, "w": w, "D": rng.randint(3, min(5, N)),
+            "exact": rng.random() < 0.6, "burn": rng.choice(STEPS), "thin": rng.choice(STEPS), "seed": rng.randint(0, 10**6),
+            **gen_magnitude(rng, large=False), **gen_streams(rng)}
+
+
+def raising_seqs(rng, N):
+    """sample(deg_seq, dim_seq) calls that raise INSIDE _match_sequences (totals differ: outside the property's quantifier,
+    correspondence + what the exception leaves on the sampler object).  With sizes <= N (asserted by the caller) the top-up
+    always finds its nodes, so the exception is the ValueError of a size < 1 - before any extraction ran out of nodes (the
+    attribute stays None) or after one did (it stays False)"""
+    r = rng.randrange(4)
+    if r == 0:
+        deg, dim = [rng.choice([0, 1, 2]) for _ in range(N)], [[0, 1]]
+    elif r == 1:
+        deg, dim = [1] + [0] * (N - 1), [[3, 1], [0, 1]]
+    elif r == 2:
+        deg, dim = [rng.choice([0, 1, 2]) for _ in range(N)], [[2, rng.randint(1, 3)], [0, 2]]
+    else:
+        deg, dim = [1] + [0] * (N - 1), [[N, 2], [1, 1], [0, 1]]
+    return {"mode": "seqs", "deg_seq": deg, "dim_seq": dim, "equal_totals": False, "rescale": False, "ddtype": rng.choice(DDTYPES)}
+
+
+def gen_session_x(rng):
+    """a session (as gen_session) with calls of the further kinds put in at random positions: sample(deg_seq=...),
+    sample(dim_seq=...), sequence calls that raise inside _match_sequences - what such a call leaves on the sampler object
+    must not reach the later calls, and the attribute after it is compared with the model's sampler state"""
+    sess = gen_session(rng)
+    N = len(sess["u"])
+    calls = [{k: v for k, v in c.items() if k != "same_as"} for c in sess["calls"]]
+    for _ in range(rng.choice([1, 2, 2, 3])):
+        r = rng.random()
+        if r < 0.3:
+            c = {x: v for x, v in gen_degonly(rng).items() if x in ("mode", "deg_seq", "ddtype")}
+            c["deg_seq"] = (c["deg_seq"] + [0] * N)[:N]
+        elif r < 0.55:
+            c = {x: v for x, v in gen_dimonly(rng).items() if x in ("mode", "dim_seq", "equal_totals")}
+            c["dim_seq"] = [[min(k, N), v] for k, v in c["dim_seq"]]
+            c["dim_seq"] = [kv for i, kv in enumerate(c["dim_seq"]) if kv[0] not in [x[0] for x in c["dim_seq"][:i]]]
+        else:
+            c = raising_seqs(rng, N)
+        calls.insert(rng.randint(0, len(calls)), c)
+    per = [rng.choice([1, 2, 2, 3]) for _ in calls]
+    schedule = [k for k, c in enumerate(per) for _ in range(c)]
+    if rng.random() < 0.5:
+        rng.shuffle(schedule)
+    return {**sess, "calls": calls, "schedule": schedule, "share": False}
+
+
+def direct_match(ctx, drv, rng):
+    """_match_sequences itself, all four flag pairs, 1-3 calls on ONE sampler object (returning and raising ones in any order):
+    result, report, final nodes_with_deg resp. the attribute the exception leaves - against C16.matchFull, which knows no history"""
+    import numpy as np
+    from hypergraphx.generation.hy_mmsbm_sampling import HyMMSBMSampler
+    N = rng.randint(2, 7)
+    seed = rng.randint(0, 10**6)
+    s = HyMMSBMSampler(u=np.ones((N, 1)), w=np.ones((1, 1)), seed=seed)
+    log = []
+    s._rng = hgxv.RngProxy(s._rng, log, "own")
+    real_todict = s._deg_seq_to_dict
+    last = {}
+
+    def todict(deg_seq):
+        last["d"] = real_todict(deg_seq)
+        return last["d"]
+    s._deg_seq_to_dict = todict
+    calls = []
+    for _ in range(rng.choice([1, 2, 2, 3])):
+        r = rng.random()
+        if r < 0.4:
+            edges = gen_edges(rng, list(range(N)), rng.randint(1, 5)) if N >= 2 else []
+            deg = [sum(1 for e in edges if x in e) for x in range(N)]
+            dim = list(count_sizes(edges).items())
+            rng.shuffle(dim)
+            if rng.random() < 0.3:
+                deg[rng.randrange(N)] += rng.randint(1, 2)
+            if rng.random() < 0.3 and dim:
+                dim[rng.randrange(len(dim))] = (rng.randint(1, N), rng.randint(0, 3))
+        else:
+            deg = [rng.choice([0, 0, 1, 1, 2, 3, 4]) if rng.random() < 0.8 else rng.randint(1, 4) for _ in range(N)]
+            if rng.random() < 0.25:
+                deg = [max(1, x) for x in deg]
+            sizes = rng.sample(range(0 if rng.random() < 0.1 else 1, N + (3 if rng.random() < 0.15 else 1)), rng.randint(1, min(3, N)))
+            dim = [(k, rng.choice([0, 1, 1, 2, 3])) for k in sizes]
+        dim = list(dict(dim).items())                          # a dict: one entry per size
+        calls.append({"deg_seq": deg, "dim_seq": [[int(k), int(v)] for k, v in dim], "fd": rng.random() < 0.5, "fm": rng.random() < 0.5})
+    case = {"mode": "match", "N": N, "seed": seed, "calls": calls}
+    lines, wants, returned = [], [], 0
+    for c in calls:
+        n0 = len(log)
+        last.pop("d", None)
+        got = None
+        try:
+            with time_limit(5):
+                r = s._match_sequences(np.array(c["deg_seq"], dtype=int), {k: v for k, v in c["dim_seq"]}, force_deg_seq=c["fd"], force_dim_seq=c["fm"])
+            cfg = sorted_cfg(r)
+            keys, resid = dict_state(last["d"], N)
+            got = ("done", cfg, s.matching_sequences, resid, keys)
+            returned += 1
+        except Timeout:
+            ctx.violation(case, f"_match_sequences did not return on {c}")
+            return
+        except Exception as e:  # noqa: BLE001 - an exception is an observation
+            got = ("raised", s.matching_sequences, type(e).__name__)
+        ctx.count(f"direct_match_{int(c['fd'])}{int(c['fm'])}_{got[0]}")
+        try:
+            picks = enc_picks([{"draws": log[n0:]}])
+        except BadTrace as e:
+            ctx.disagree(case, str(e))
+            return
+        lines.append(f"matchr {hgxv.enc_list(c['deg_seq'])} {hgxv.enc_lists(c['dim_seq'])} {int(c['fd'])} {int(c['fm'])} {hgxv.enc_lists(picks)}")
+        wants.append(got)
+        if got[0] == "done":
+            # the guarantees per flag pair, in the words of the docstring / the property, on the real result
+            cfg, flag = got[1], got[2]
+            dim = {}
+            for k, v in c["dim_seq"]:
+                if k >= 2 and v > 0:
+                    dim[k] = v
+            used = count_deg(cfg)
+            bad = None
+            if any(len(set(e)) != len(e) or len(e) < 2 or not all(0 <= x < N for x in e) for e in cfg):
+                bad = "a hyperedge is no set of >= 2 nodes of the model"
+            elif (c["fm"] or not c["fd"]) and count_sizes(cfg) != dim:
+                bad = f"force_dim_seq: size counts {count_sizes(cfg)} != requested {dim}"
+            elif c["fd"] and not c["fm"] and any(d > c["deg_seq"][x] for x, d in used.items()):
+                bad = f"force_deg_seq: node usage {used} exceeds the degree sequence"
+            elif c["fd"] and not c["fm"] and sum(1 for x in got[3] if x is not None and x > 0) > 1:
+                bad = f"force_deg_seq: returned although more than one node keeps residual degree (usage {used})"
+            elif flag is True and all(k >= 2 for k, v in c["dim_seq"]) and any(d > c["deg_seq"][x] for x, d in used.items()):
+                bad = f"report True but node usage {used} exceeds the degree sequence"
+            elif flag not in (True, False):
+                bad = f"matching_sequences is {flag!r} after a returning call"
+            if bad:
+                ctx.violation({**case, "failing_call": c}, f"_match_sequences(deg_seq={c['deg_seq']}, dim_seq={c['dim_seq']}, force_deg_seq={c['fd']}, "
+                              f"force_dim_seq={c['fm']}) = {cfg}, report {flag}: {bad}")
+        elif got[1] is True:
+            ctx.violation({**case, "failing_call": c}, f"_match_sequences raised {got[2]} and left matching_sequences=True on the sampler (a report for a "
+                          "call that built nothing; the next reader sees a stale True)")
+    ctx.case(repr(case), returned > 0)
+    ctx.count("direct_match")
+    if drv is None:
+        return
+    for c, ln, a, w in zip(calls, lines, drv.batch(lines), wants):
+        if w[0] == "done":
+            want = f"done {hgxv.enc_lists(w[1])} {int(bool(w[2]))} {hgxv.enc_list(w[4])} {hgxv.enc_list(w[3])} 0"
+            parts = a.split(" ")
+            same = (len(parts) == 6 and parts[0] == "done" and [sorted(e) for e in hgxv.dec_lists(parts[1])] == w[1]
+                    and parts[2:] == want.split(" ")[2:])
+        else:
+            want = "raised " + STATE_TOK.get(w[1], "?")
+            same = a == want
+        if not same:
+            ctx.disagree({**case, "line": ln}, f"_match_sequences: model {a!r}, implementation {want!r}" + (f" ({w[2]})" if w[0] == "raised" else ""))
+
+
 def witness_cases():
     """D44 (fixed): one-hot u (4 + 4 nodes), w = diag(3, 2), the 16 dyads joining the two communities (Poisson
     parameter 0 -> clipped mean 1e-10), no MCMC step.  With these seeds one of the 16 uniforms of the first sample is
@@ -2079,11 +2353,19 @@ def run(ctx):
     for sess in zoo_sessions():
         check_session(ctx, drv, sess)
     gens = [gen_hyg, gen_seqs, gen_model, gen_hard]
+    # the streams of the extension round draw from their own PRNG: the cases of the older streams stay what they were per seed
+    import random
+    xr = random.Random(ctx.seed * 7919 + 16)
     for i in range(n):
         case = gens[i % 4](ctx.rng)
         check_case(ctx, drv, case)
         if i % 4 == 0:
             check_session(ctx, drv, gen_session(ctx.rng))
+        if i % 8 == 1:
+            check_case(ctx, drv, (gen_degonly if i % 16 == 1 else gen_dimonly)(xr))
+        if i % 12 == 3:
+            check_session(ctx, drv, gen_session_x(xr))
+        direct_match(ctx, drv, xr)
         for _ in range(2):
             direct_reshuffle(ctx, drv, ctx.rng)
             direct_extract(ctx, drv, ctx.rng)
@@ -2100,7 +2382,7 @@ def replay(ctx, case):
     mode = case.get("mode")
     if mode == "session":
         check_session(ctx, drv, case)
-    elif mode in ("hyg", "seqs", "model"):
+    elif mode in ("hyg", "seqs", "model", "degonly", "dimonly"):
         check_case(ctx, drv, case)
     else:
         ctx.assumptions.append("direct-call cases are regenerated from VERIF_SEED, not replayed individually")
